@@ -13,7 +13,8 @@ are integers … and, in the TLS ladders of the unrepaired code, the *class* `ss
 element is therefore an `Item`, so that the confusion (D26) is expressible: an int never equals a class.
 
 Two versions: `orig` = the code as found (D13: `==` instead of `in` in `GramStack._serviceOneReceived`;
-D26: `ssl.SSLEOFError` listed among the errnos), `fixed` = with fixes/D13-*.patch and fixes/D26-*.patch.
+D26: `ssl.SSLEOFError` listed among the errnos; D26b: would-block recognised by number only),
+`fixed` = with fixes/D13-*.patch and fixes/D26-*.patch, `fixed2` = also with fixes/D26b-*.patch.
 Core Lean only.
 -/
 namespace Ioflo.Errno
@@ -126,7 +127,9 @@ def Site.isSend : Site → Bool
   | .clientSend | .clientTlsSend | .incomerSend | .incomerTlsSend | .udpSend | .gramSend => true
   | _ => false
 
-inductive Version | orig | fixed
+/-- `orig` = as found; `fixed` = with D13 and D26; `fixed2` = also with D26b
+(`isinstance(ex, ssl.SSLError) and ex.args[0] in (WANT_READ, WANT_WRITE)`) -/
+inductive Version | orig | fixed | fixed2
   deriving DecidableEq, Repr
 
 inductive Outcome
@@ -166,14 +169,18 @@ def plainLadder (e : Err) : Outcome :=
   else if inTuple e.arg0 streamLoss then .cutoff
   else .raise
 
-/-- the same ladder in `ClientTls` / `IncomerTls` -/
+/-- the same ladder in `ClientTls` / `IncomerTls`.  As found the would-block test looks at the number in
+`ex.args[0]` only (D26b: an `OSError` with errno 2 or 3 passes for want-read / want-write); with
+fixes/D26b it also requires an `ssl.SSLError`. -/
 def tlsLadder (v : Version) (e : Err) : Outcome :=
   if !e.cls.isOs then .raise
-  else if inTuple e.arg0 tlsBlock then .wouldBlock
+  else if (match v with
+           | .fixed2 => e.cls.isSsl && inTuple e.arg0 tlsBlock
+           | _ => inTuple e.arg0 tlsBlock) then .wouldBlock
   else match v with
     | .orig => if inTuple e.arg0 tlsLossOrig then .cutoff else .raise
     -- fixes/D26: `elif isinstance(ex, ssl.SSLEOFError) or ex.args[0] in (…eight errnos…):`
-    | .fixed => if e.cls = .sslEof || inTuple e.arg0 streamLoss then .cutoff else .raise
+    | _ => if e.cls = .sslEof || inTuple e.arg0 streamLoss then .cutoff else .raise
 
 /-- `handshake()`:
 ```
@@ -220,7 +227,7 @@ def gramRecvLadder (v : Version) (e : Err) : Outcome :=
     if !e.cls.isOs then .raise
     else match v with
       | .orig => .raise                                 -- `int == tuple` is False: `else: raise`
-      | .fixed => if inTuple e.arg0 gramTransient then .retry else .raise
+      | _ => if inTuple e.arg0 gramTransient then .retry else .raise
   | o => o
 
 def classify (v : Version) : Site → Err → Outcome
